@@ -79,26 +79,59 @@ impl Stream {
             Stream::Explicit(v) => Some(v.len() as u64),
         }
     }
+    /// whether the iterator over this stream keeps yielding (poison) after its first `None`:
+    /// a deterministic half of the finite streams
+    pub fn non_fused(&self) -> bool {
+        match self {
+            Stream::Seq { start, len: Some(l), .. } => (*start as u64 ^ *l) % 2 == 1,
+            Stream::Hash { seed, len: Some(l) } => (*seed as u64 ^ *l) % 2 == 1,
+            _ => false,
+        }
+    }
     pub fn iter<C: TagColor>(&self) -> StreamIter<'_, C> {
-        StreamIter { s: self, k: 0, _p: std::marker::PhantomData }
+        StreamIter { s: self, k: 0, ended: false, poison_left: 3, _p: std::marker::PhantomData }
     }
 }
 pub struct StreamIter<'a, C> {
     s: &'a Stream,
     k: u64,
+    /// Rust iterators may yield again after `None`; a stream *ends* at its first `None`. After
+    /// the end this iterator is deliberately not fused for a share of the streams: every later
+    /// poll yields a poison colour, so a consumer that keeps polling paints something visible.
+    ended: bool,
+    /// the iterator resumes for a few items only (like `map_while` over a longer source), then
+    /// stays empty: a consumer that polls past the end still terminates
+    poison_left: u8,
     _p: std::marker::PhantomData<C>,
 }
+
+/// poison colour yielded by a non-fused stream when polled after its end
+pub const POISON: u32 = 0x2A55;
 impl<C: TagColor> Iterator for StreamIter<'_, C> {
     type Item = C;
     fn next(&mut self) -> Option<C> {
-        let t = self.s.at(self.k, C::mask())?;
-        self.k += 1;
-        Some(C::from_tag(t))
+        match self.s.at(self.k, C::mask()) {
+            Some(t) => {
+                self.k += 1;
+                Some(C::from_tag(t))
+            }
+            None => {
+                if self.ended && self.s.non_fused() && self.poison_left > 0 {
+                    self.poison_left -= 1;
+                    return Some(C::from_tag(POISON));
+                }
+                self.ended = true;
+                None
+            }
+        }
     }
     /// O(1) skipping (like slices, ranges and most adaptor chains): lets the workload use
     /// rectangles with billions of clipped points. A driver that skips by calling next()
     /// in a loop still works, just slowly; the pull counter counts skipped items too.
     fn nth(&mut self, n: usize) -> Option<C> {
+        if self.ended {
+            return self.next();
+        }
         self.k = self.k.saturating_add(n as u64);
         self.next()
     }
@@ -137,6 +170,8 @@ pub enum Op {
     /// 0 = off, 1 = vertical, 2 = horizontal and vertical
     Tearing(u8),
     TestImage,
+    /// `unsafe { display.dcs() }` without sending anything
+    DcsBorrow,
 }
 
 impl Op {
@@ -155,6 +190,7 @@ impl Op {
             Op::ScrollOffset(_) => "set_vertical_scroll_offset",
             Op::Tearing(_) => "set_tearing_effect",
             Op::TestImage => "test_image",
+            Op::DcsBorrow => "dcs_borrow",
         }
     }
     pub fn is_draw(&self) -> bool {
@@ -194,6 +230,10 @@ impl Op {
                     .map(|(x, y, c)| J::Arr(vec![(*x).into(), (*y).into(), (*c).into()]))
                     .collect();
                 j.set("pixels_head", J::Arr(shown));
+                if pixels.len() % 2 == 1 {
+                    // the pixel iterator is not fused: see rig::Hinted
+                    j.set("polled_again_after_its_end_yields", "one pixel of colour 0x2A55 at (0, 0)");
+                }
             }
             Op::FillContiguous { rect, colors } => {
                 j.set("rect", rect_json(rect)).set("colors", stream_json(colors));
@@ -216,7 +256,7 @@ impl Op {
             Op::Tearing(a) => {
                 j.set("mode", *a);
             }
-            Op::Sleep | Op::Wake | Op::TestImage => {}
+            Op::Sleep | Op::Wake | Op::TestImage | Op::DcsBorrow => {}
         }
         j
     }
@@ -226,6 +266,15 @@ pub fn rect_json(r: &Rect) -> J {
     J::Arr(vec![r.x.into(), r.y.into(), r.w.into(), r.h.into()])
 }
 pub fn stream_json(s: &Stream) -> J {
+    let j = stream_json_plain(s);
+    if s.non_fused() {
+        // the iterator is not fused: see StreamIter
+        j.with("polled_again_after_its_end_yields", "colour 0x2A55, up to 3 times")
+    } else {
+        j
+    }
+}
+fn stream_json_plain(s: &Stream) -> J {
     match s {
         Stream::Seq { start, step, len } => J::obj().with("start", *start).with("step", *step).with("len", *len),
         Stream::Hash { seed, len } => J::obj().with("hash_seed", *seed).with("len", *len),
